@@ -172,6 +172,13 @@ func secretIndependence(t *rapid.T, kind, sub string) {
 	for _, s := range srv {
 		var first opclient.Reply
 		var firstLine string
+		// Warm-up: run the first request once without looking at it.  State that depends on the call
+		// history and the *public* inputs only (a lazily filled, properly synchronised cache keyed by a
+		// tag or a public key) is then the same for every measured call; state keyed by secret data is
+		// not, and still shows up as a difference between the alternatives.
+		if _, err := s.c.CallLine(opclient.Line(reqs[0].Op, reqs[0].Args...)); err != nil {
+			t.Fatalf("%v", err)
+		}
 		for i, r := range reqs {
 			line := opclient.Line(r.Op, r.Args...)
 			rep, err := s.c.CallLine(line)
